@@ -74,6 +74,8 @@ inductive Simple where
   | storeOldPlus (k : Nat) (o : Ord)
   /-- `self.0.store(old - k, ord)` (wrapping): a NON-atomic update of the counter. -/
   | storeOldMinus (k : Nat) (o : Ord)
+  /-- `self.0.store(v, ord)` of a literal: a NON-atomic update of the counter. -/
+  | storeLit (v : Nat) (o : Ord)
   /-- `self.0.fetch_sub(n, ord);` with the result discarded (e.g. a compensating decrement). -/
   | rmwSub (n : Nat) (o : Ord)
   /-- `self.0.fetch_add(n, ord);` with the result discarded. -/
@@ -97,6 +99,8 @@ inductive AStep where
   | simple (s : Simple)
   /-- `if old <cmp> n { thn; return rthn } else { els; return rels }` -/
   | branch (c : Cmp) (n : Bound) (thn : List Simple) (rthn : Ret) (els : List Simple) (rels : Ret)
+  /-- `if old <cmp> n { thn; return r }` (early return; falls through otherwise) -/
+  | guard (c : Cmp) (n : Bound) (thn : List Simple) (r : Ret)
   /-- `return r` -/
   | ret (r : Ret)
   deriving DecidableEq, Repr, Inhabited, Hashable
@@ -111,7 +115,7 @@ structure Proto where
 
 /-- A straight-line statement that writes the counter without reading it atomically. -/
 def Simple.isStore : Simple → Bool
-  | .storeOldPlus .. | .storeOldMinus .. => true
+  | .storeOldPlus .. | .storeOldMinus .. | .storeLit .. => true
   | _ => false
 
 /-- A fence (the only straight-line statement that does not touch the counter). -/
@@ -123,6 +127,7 @@ def Simple.isFence : Simple → Bool
 def AStep.hasStore : AStep → Bool
   | .simple s => s.isStore
   | .branch _ _ thn _ els _ => thn.any Simple.isStore || els.any Simple.isStore
+  | .guard _ _ thn _ => thn.any Simple.isStore
   | _ => false
 
 /-- "Every modification of the counter is an atomic read-modify-write": no plain `store`. -/
@@ -133,6 +138,7 @@ def AStep.writes : AStep → Bool
   | .rmwSub .. | .rmwAdd .. | .casLoop .. => true
   | .simple s => !s.isFence
   | .branch _ _ thn _ els _ => !(thn.all Simple.isFence && els.all Simple.isFence)
+  | .guard _ _ thn _ => !thn.all Simple.isFence
   | _ => false
 
 /-- The method never writes the counter. -/
